@@ -33,6 +33,22 @@ PP_CONSTS = {
     'identchars': None, 'identbodychars': None,
 }
 
+PP_ELEMENTS = {   # pyparsing's ready-made expressions (module-level singletons): name -> (kind, attrs)
+    'c_style_comment': ('regex', {'pattern': r'/\*(?:[^*]|\*(?!/))*\*\/', 'flags': 0}),
+    'dbl_slash_comment': ('regex', {'pattern': r'//(?:\\\n|[^\n])*', 'flags': 0}),
+    'cpp_style_comment': ('regex', {'pattern': r'(?:/\*(?:[^*]|\*(?!/))*\*\/)|(?://(?:\\\n|[^\n])*)', 'flags': 0}),
+    'java_style_comment': ('regex', {'pattern': r'(?:/\*(?:[^*]|\*(?!/))*\*\/)|(?://(?:\\\n|[^\n])*)', 'flags': 0}),
+    'python_style_comment': ('regex', {'pattern': r'#.*', 'flags': 0}),
+    'html_comment': ('regex', {'pattern': r'<!--[\s\S]*?-->', 'flags': 0}),
+    'rest_of_line': ('regex', {'pattern': r'.*', 'flags': 0}),
+    'line_end': ('lineend', {}), 'line_start': ('linestart', {}), 'string_end': ('stringend', {}), 'string_start': ('stringstart', {}),
+    'empty': ('empty', {}),
+}
+PP_ELEMENT_ALIASES = {'cStyleComment': 'c_style_comment', 'dblSlashComment': 'dbl_slash_comment', 'cppStyleComment': 'cpp_style_comment',
+                      'javaStyleComment': 'java_style_comment', 'pythonStyleComment': 'python_style_comment', 'htmlComment': 'html_comment',
+                      'restOfLine': 'rest_of_line', 'lineEnd': 'line_end', 'lineStart': 'line_start', 'stringEnd': 'string_end',
+                      'stringStart': 'string_start'}
+
 SEQ_KINDS = ('and', 'first', 'or', 'each')          # ParseExpression: copy() copies children
 TOKEN_KINDS = ('lit', 'word', 'quoted', 'charsnotin', 'lineend', 'stringend', 'linestart', 'stringstart',
                'white', 'wordstart', 'wordend', 'empty', 'regex', 'oneof', 'errorstop', 'nomatch', 'keyword')
@@ -178,6 +194,7 @@ class GrammarEval:
         self.order: List[str] = []
         self.created: List[G] = []
         self._in_progress: Set[str] = set()
+        self._pp_elements: Dict[str, G] = {}
 
     # ------------------------------------------------------------------ nodes
     def mk(self, kind: str, kids=None, a=None, node: Optional[ast.AST] = None, module: str = '') -> G:
@@ -256,7 +273,7 @@ class GrammarEval:
                 self.bind(st.target, self.ev(st.value, env, mod, self_cfg), env, mod, st)
             return
         if isinstance(st, ast.AugAssign):
-            if isinstance(st.target, ast.Name) and isinstance(st.op, (ast.Add, ast.BitOr, ast.BitXor, ast.Sub, ast.LShift)):
+            if isinstance(st.target, ast.Name) and isinstance(st.op, (ast.Add, ast.BitOr, ast.BitXor, ast.BitAnd, ast.Sub, ast.LShift)):
                 cur = env.get(st.target.id)
                 rhs = self.ev(st.value, env, mod, self_cfg)
                 if isinstance(st.op, ast.LShift):
@@ -264,6 +281,11 @@ class GrammarEval:
                     return
                 fake = ast.BinOp(left=st.target, op=st.op, right=st.value)
                 ast.copy_location(fake, st)
+                # pyparsing: And.__iadd__, MatchFirst.__ior__, Or.__ixor__, Each.__iand__ append to the receiver IN PLACE
+                inplace = {ast.Add: 'and', ast.BitOr: 'first', ast.BitXor: 'or', ast.BitAnd: 'each'}.get(type(st.op))
+                if isinstance(cur, G) and inplace is not None and cur.kind == inplace:
+                    cur.kids.append(self.as_g(rhs, st, m))
+                    return
                 v = self.binop(cur, st.op, rhs, fake, m)
                 env[st.target.id] = v
                 return
@@ -320,6 +342,16 @@ class GrammarEval:
             if isinstance(base, PPRef):
                 if not base.path and e.attr in PP_CONSTS and PP_CONSTS[e.attr] is not None:
                     return PP_CONSTS[e.attr]
+                ename = PP_ELEMENT_ALIASES.get(e.attr, e.attr)
+                if not base.path and ename in PP_ELEMENTS:
+                    if ename not in self._pp_elements:
+                        kind, attrs = PP_ELEMENTS[ename]
+                        g = G(kind, None, dict(attrs), 'pyparsing', 0, ' \t\r\n')
+                        g.var = 'pp.' + ename
+                        if ename == 'rest_of_line':
+                            g.skip_ws = False
+                        self._pp_elements[ename] = g
+                    return self._pp_elements[ename]
                 return PPRef(base.path + (e.attr,))
             if isinstance(base, G):
                 return GMethod(base, e.attr)
